@@ -318,6 +318,39 @@ func genVPN(t *rapid.T, s *State, opts GenOpts, label string) {
 			g.Webvpn = true
 			g.CGMap = append(g.CGMap, mapEntry{"ca-map", seq, tgName})
 		}
+		// A second mapped tunnel-group: its own rule of the certificate map
+		// (another index, another subject), entries in the same lists.
+		if chance(t, 2, 3, label+"tg2") {
+			tg2Name := "VPN-tunnel2"
+			tg2 := g.put(kTG, tg2Name)
+			if chance(t, 1, 3, label+"tg2l2l") {
+				tg2.Top = []string{"type ipsec-l2l"}
+				tg2.mode("ipsec-attributes").Lines = subset(t, l2lIpsec, 1, 3, label+"tg2Ipsec")
+			} else {
+				tg2.Top = []string{"type remote-access"}
+				tg2.mode("general-attributes").Lines = []string{"default-group-policy " + gp}
+				if chance(t, 1, 2, label+"tg2Ipsec") {
+					tg2.mode("ipsec-attributes").Lines = subset(t, raIpsec, 1, 2, label+"tg2IpsecL")
+				}
+			}
+			// Its own map name: the tool identifies a map entry by the first
+			// rule found under the map's name, i.e. it relies on one rule per
+			// name, as Netspoc generates them.
+			cert2, seq2 := "ca-map2", pick(t, []string{"10", "20", "30"}, label+"cert2seq")
+			var subj2 []string
+			for _, x := range subjects {
+				if strings.ToLower(x) != strings.ToLower(cl[0]) {
+					subj2 = append(subj2, x)
+				}
+			}
+			g.put(kCert, cert2).mode(seq2).Lines = []string{pick(t, subj2, label+"subj2")}
+			if k != 1 {
+				g.TGMap = append(g.TGMap, mapEntry{cert2, seq2, tg2Name})
+			}
+			if k == 1 || k == 2 {
+				g.CGMap = append(g.CGMap, mapEntry{cert2, seq2, tg2Name})
+			}
+		}
 		if chance(t, 1, 6, label+"dfltMap") {
 			g.TGMap = append(g.TGMap, mapEntry{"", "", pick(t, []string{tgName, "DefaultRAGroup", "DefaultL2LGroup"}, label+"dfltMapTG")})
 		}
@@ -523,7 +556,13 @@ func putLine(kind string, ms *modeSpec, md *vmode, line string) {
 func (s *State) mutateVPN(t *rapid.T, o GenOpts, label string) string {
 	g := s.Gen
 	cmaps := g.names(kCMap)
-	op := rapid.IntRange(0, 18).Draw(t, label+"vop")
+	op := rapid.IntRange(0, 24).Draw(t, label+"vop")
+	switch op {
+	case 21:
+		op = 19
+	case 22, 23, 24:
+		op = 20
+	}
 	switch op {
 	case 0: // peer changed
 		if len(cmaps) == 0 {
@@ -860,6 +899,85 @@ func (s *State) mutateVPN(t *rapid.T, o GenOpts, label string) string {
 			return "vpn:aaaMapDetached"
 		}
 		return "vpn:noop"
+	case 19: // rule of a certificate map renumbered (entries follow)
+		var rules [][2]string
+		for _, n := range g.names(kCert) {
+			for _, q := range g.Objs[kCert][n].seqs() {
+				rules = append(rules, [2]string{n, q})
+			}
+		}
+		if len(rules) == 0 {
+			return "vpn:noop"
+		}
+		r := rules[rapid.IntRange(0, len(rules)-1).Draw(t, label+"rule")]
+		nq := pick(t, []string{"5", "10", "15", "20", "30", "40"}, label+"nq")
+		cm := g.Objs[kCert][r[0]]
+		if cm.Modes[nq] != nil {
+			return "vpn:noop"
+		}
+		cm.Modes[nq] = cm.Modes[r[1]]
+		delete(cm.Modes, r[1])
+		for i := range g.TGMap {
+			if g.TGMap[i].Cert == r[0] && g.TGMap[i].Seq == r[1] {
+				g.TGMap[i].Seq = nq
+			}
+		}
+		for i := range g.CGMap {
+			if g.CGMap[i].Cert == r[0] && g.CGMap[i].Seq == r[1] {
+				g.CGMap[i].Seq = nq
+			}
+		}
+		return "vpn:certSeqRenumbered"
+	case 20: // mapped tunnel-group of another type: nothing in common, must be replaced
+		var cand []string
+		for _, e := range append(append([]mapEntry{}, g.TGMap...), g.CGMap...) {
+			if e.Cert != "" && g.get(kTG, e.TG) != nil && kindByID[kTG].defaults[e.TG] == "" {
+				cand = append(cand, e.TG)
+			}
+		}
+		if len(cand) == 0 {
+			return "vpn:noop"
+		}
+		tg := g.Objs[kTG][pick(t, cand, label+"tgRepl")]
+		if len(tg.Top) > 0 && tg.Top[0] == "type ipsec-l2l" {
+			tg.Top = []string{"type remote-access"}
+		} else {
+			tg.Top = []string{"type ipsec-l2l"}
+		}
+		tg.Modes = map[string]*vmode{}
+		if chance(t, 1, 2, label+"tgReplAttr") {
+			tg.mode("ipsec-attributes").Lines = []string{"peer-id-validate cert"}
+		}
+		// often together with another index of its certificate map rule
+		if chance(t, 1, 2, label+"tgReplSeq") {
+			for _, n := range g.names(kCert) {
+				cm := g.Objs[kCert][n]
+				for _, q := range cm.seqs() {
+					nq := pick(t, []string{"5", "15", "25", "40"}, label+"tgReplNq")
+					used := false
+					for _, e := range append(append([]mapEntry{}, g.TGMap...), g.CGMap...) {
+						used = used || (e.Cert == n && e.Seq == q && g.get(kTG, e.TG) == tg)
+					}
+					if !used || cm.Modes[nq] != nil {
+						continue
+					}
+					cm.Modes[nq] = cm.Modes[q]
+					delete(cm.Modes, q)
+					for i := range g.TGMap {
+						if g.TGMap[i].Cert == n && g.TGMap[i].Seq == q {
+							g.TGMap[i].Seq = nq
+						}
+					}
+					for i := range g.CGMap {
+						if g.CGMap[i].Cert == n && g.CGMap[i].Seq == q {
+							g.CGMap[i].Seq = nq
+						}
+					}
+					return "vpn:tunnelGroupReplacedAndRenumbered"
+				}
+			}
+		}
+		return "vpn:tunnelGroupReplaced"
 	case 17: // objects without generated name that nothing managed uses
 		switch rapid.IntRange(0, 2).Draw(t, label+"um") {
 		case 0:
